@@ -7,6 +7,7 @@ package saml2
 
 import (
 	"bytes"
+	"net/url"
 	"crypto/tls"
 	"crypto/x509"
 	"math/big"
@@ -851,4 +852,60 @@ func vX509ParseCalls() int { return 0 }
 func vB64Dec(s string) string {
 	b, _ := base64.StdEncoding.DecodeString(s)
 	return string(b)
+}
+
+// ---- C14 / C16 natives ----
+
+func vURL(name string, withParam bool) string {
+	n := vxFresh(name)
+	base, _ := vx.inputs[n+".base"].(string)
+	if vxI64("url.parse.fails") == 1 {
+		return "https://idp.example/%zz-invalid-escape"
+	}
+	u := fmt.Sprintf("https://idp.example/%s/%x", name, []byte(base))
+	if withParam {
+		t, _ := vx.inputs[n+".tenant"].(string)
+		u += "?tenant=" + url.QueryEscape(t)
+	}
+	return u
+}
+func vURLBase(u string) string {
+	if i := strings.IndexByte(u, '?'); i >= 0 {
+		return u[:i]
+	}
+	return u
+}
+func vURLTenant(u string) string {
+	pu, err := url.Parse(u)
+	if err != nil {
+		return ""
+	}
+	return pu.Query().Get("tenant")
+}
+func vURLHasTenant(u string) bool { return strings.Contains(u, "?tenant=") }
+func vQEsc(s string) string       { return url.QueryEscape(s) }
+func vQueryString(name string) string { return vString(name) }
+func vDeflated(s string) string {
+	var b bytes.Buffer
+	w, _ := flate.NewWriter(&b, flate.DefaultCompression)
+	w.Write([]byte(s))
+	w.Close()
+	return b.String()
+}
+func vBytesOf(s string) []byte { return []byte(s) }
+func vSignatureOf(u string) string {
+	pu, err := url.Parse(u)
+	if err != nil {
+		return ""
+	}
+	return pu.Query().Get("Signature")
+}
+func vSigVerifies(signatureB64, content string, key *rsa.PrivateKey, hash crypto.Hash) bool {
+	sig, err := base64.StdEncoding.DecodeString(signatureB64)
+	if err != nil {
+		return false
+	}
+	h := hash.New()
+	h.Write([]byte(content))
+	return rsa.VerifyPKCS1v15(&key.PublicKey, hash, h.Sum(nil), sig) == nil
 }
